@@ -87,6 +87,18 @@ CHECKS = {
         'env, gcc as environment. Environment-model disagreements are exit 2. Known findings: newline refusals in compiler/linker '
         'arguments. POSIX host only.',
         'DESIGN.md section 5, C03 and section 10'),
+    'C09': (
+        'TLC: BuildDirCrash (state files as contents/version/synced, file-system ops, Crash between any two ops, Recover model) over a '
+        '2,368-design family of write protocols and over the op scripts recorded with strace from the real commands; trace validation '
+        'of every SIGKILL point injected into the real CLI (strace inject) by TraceBuildDirCrash.tla',
+        'Model checking of specs/builddir: safe write-protocol designs satisfy Recoverable and ValuesOldOrNew for every order, chunking '
+        'and history (126k/200k states), the same machine is run over the op scripts recorded from the real commands (every prefix), '
+        'and every kill point of the command/history pairs (quick: flagged prefixes + stride sample; thorough: all 674) is executed on '
+        'the real CLI under strace fault injection and judged by the trace spec (crash state = Run(script, k), follow-up succeeds, '
+        'every option old or new); the reader model is replayed on 12 synthesized crash states.',
+        'Trusted: TLC, strace (-P path filter, inject=...:signal=SIGKILL:when=k), the log-to-script parser and file projections in '
+        'harness/c09_*.py. SIGKILL semantics (page cache survives); power loss only as the fsync-before-rename ordering law.',
+        'DESIGN.md section 5, C09 and section 10'),
 }
 
 NOT_YET = {}
